@@ -121,7 +121,8 @@ func runC17(seed int64, tier string, sc *Script) map[string]any {
 	}
 	unit := time.Microsecond
 	// "E": a plain transport error; "N": a net.Error that is not a timeout (connection reset)
-	toks := []string{"200", "404", "503", "500", "429:ra1", "408", "401b", "401B", "T", "E", "N", "201", "502"}
+	// (statuses between 429 and 500 are client errors like any other: returned at once)
+	toks := []string{"200", "404", "503", "500", "429:ra1", "408", "401b", "401B", "T", "E", "N", "201", "502", "431", "451", "499", "428", "599"}
 	evals := 0
 	sc.Case("stack-scripts")
 	sc.NonTrivial()
